@@ -363,8 +363,12 @@ pub fn ops() -> Vec<Op> {
     ]
 }
 
+fn op_index(o: &Op) -> Option<usize> {
+    ops().iter().position(|x| x == o)
+}
+
 fn describe(prefix: &[Op], batch: &[Op], choices: &[usize], trace: &[String]) -> Value {
-    json!({"engine":"E3","history": prefix.iter().map(|o| format!("{o:?}")).collect::<Vec<_>>(), "concurrent_batch": batch.iter().map(|o| format!("{o:?}")).collect::<Vec<_>>(), "schedule_choices": choices, "events": trace})
+    json!({"engine":"E3","history_ops": prefix.iter().map(op_index).collect::<Vec<_>>(), "batch_ops": batch.iter().map(op_index).collect::<Vec<_>>(), "history": prefix.iter().map(|o| format!("{o:?}")).collect::<Vec<_>>(), "concurrent_batch": batch.iter().map(|o| format!("{o:?}")).collect::<Vec<_>>(), "schedule_choices": choices, "events": trace})
 }
 
 /// Execute: sequential prefix (each to quiescence, FIFO), then the batch sent back-to-back under
@@ -722,5 +726,24 @@ pub fn model_only(c: &mut Client, op: &Op) {
         }
         Op::CodeAction(_) => {}
         Op::Shutdown => c.shut_down = true,
+    }
+}
+
+/// Replay one recorded (history, batch, schedule) without the explorer.
+pub fn replay(case: &Value) -> Vec<(String, Value)> {
+    crate::e3::sandbox_env();
+    let all = ops();
+    let get = |k: &str| -> Option<Vec<Op>> {
+        case[k].as_array()?.iter().map(|x| x.as_u64().and_then(|i| all.get(i as usize).cloned())).collect()
+    };
+    let (Some(prefix), Some(batch)) = (get("history_ops"), get("batch_ops")) else {
+        return vec![("bad-replay-file".into(), json!({}))];
+    };
+    let choices: Vec<usize> = case["schedule_choices"].as_array().map(|a| a.iter().filter_map(|x| x.as_u64().map(|v| v as usize)).collect()).unwrap_or_default();
+    match catch(|| execute(&prefix, &batch, &choices)) {
+        Ok(Ok((sess, _, trace, true))) => sess.check_spec().into_iter().map(|(_, d)| ("final-diagnostics-differ-from-reference".to_string(), json!({"problem": d, "events": trace}))).collect(),
+        Ok(Ok(_)) => vec![("history-not-applicable".into(), json!({}))],
+        Ok(Err(e)) => vec![(if e.starts_with("deadlock") { "server-deadlock".to_string() } else { format!("machinery:{e}") }, json!({"error": e}))],
+        Err(p) => vec![(format!("server-panic:{}", msg_class(&p.msg)), json!({"msg": p.msg}))],
     }
 }
